@@ -13,6 +13,8 @@ import (
 	"path/filepath"
 	"sort"
 	"strings"
+	"sync/atomic"
+	"syscall"
 	"time"
 
 	"github.com/superfly/litefs"
@@ -446,16 +448,20 @@ func runC20(c *core.Case) {
 			badTrailer[len(badTrailer)-3] ^= 0xFF
 			goodCorrupt := append([]byte(nil), good...)
 			goodCorrupt[len(goodCorrupt)-20] ^= 0xFF
+			// well-formed in every respect (file checksum included) except that
+			// the database it claims to produce is not the one its pages produce
+			wrongPost := forgeLTXPost(cl.Nodes[0], img, 0x7777, 0x0123456789abcdef)
 			hostile := map[string][]byte{
-				"snapshot-truncated-after-header": snap[:100],
-				"snapshot-truncated-mid-page":     snap[:100+int(ps)/2],
-				"snapshot-truncated-mid-trailer":  snap[:len(snap)-5],
-				"snapshot-corrupt-page":           corrupt,
-				"snapshot-bad-file-checksum":      badTrailer,
-				"next-tx-corrupt-body":            goodCorrupt,
-				"next-tx-truncated":               good[:len(good)-9],
-				"empty":                           {},
-				"garbage":                         bytes.Repeat([]byte{0x5C}, 333),
+				"next-tx-wrong-postapply-checksum": wrongPost,
+				"snapshot-truncated-after-header":  snap[:100],
+				"snapshot-truncated-mid-page":      snap[:100+int(ps)/2],
+				"snapshot-truncated-mid-trailer":   snap[:len(snap)-5],
+				"snapshot-corrupt-page":            corrupt,
+				"snapshot-bad-file-checksum":       badTrailer,
+				"next-tx-corrupt-body":             goodCorrupt,
+				"next-tx-truncated":                good[:len(good)-9],
+				"empty":                            {},
+				"garbage":                          bytes.Repeat([]byte{0x5C}, 333),
 			}
 			for kind, body := range hostile {
 				before := stateDigest(target)
@@ -478,6 +484,38 @@ func runC20(c *core.Case) {
 				}
 				c.Count("invalid_requests_digest_checked", 1)
 				c.Distinct("primary|POST /tx|holder|" + kind)
+			}
+			// a usable file whose apply step fails before the database is touched
+			// (the database file cannot be opened: too many open files). The holder
+			// is told that the transaction failed, so nothing of it may stay behind.
+			{
+				var injected atomic.Bool
+				target.Node.OS.SetHook(func(op, kind, path string) error {
+					if strings.HasPrefix(op, "APPLYLTX:DB") && injected.CompareAndSwap(false, true) {
+						return syscall.EMFILE
+					}
+					return nil
+				})
+				before := stateDigest(target)
+				st, err := send(c20Req{Method: "POST", Path: "/tx", Query: "name=db&lockID=" + hid, NodeID: foreign, Body: good, BodyKind: "valid-but-apply-fails-early", H2: c.Rng.IntN(2) == 0})
+				target.Node.OS.SetHook(nil)
+				c.Count("requests", 1)
+				c.Count("ep_tx", 1)
+				detail := map[string]any{"role": role, "request": "POST /tx from the halt-lock holder, usable body, EMFILE when the database file is opened for the apply step"}
+				if err != nil {
+					c.Violate("C20/no-http-response/POST /tx", fmt.Sprintf("holder's /tx got no response: %v", err), detail)
+					return
+				}
+				if healthViolations(c, target.Node, "holder /tx with a failing apply step", detail) {
+					return
+				}
+				if injected.Load() && st != 200 {
+					c.Count("holder_tx_apply_failed_early", 1)
+					if after := stateDigest(target); after != before {
+						c.Violate("C20/refused-request-changed-state/POST /tx", fmt.Sprintf("POST /tx from the halt-lock holder failed before the database was touched (answered %d) and still changed databases/positions/logs: the next start would apply the refused transaction", st), map[string]any{"digest_before": before, "digest_after": after})
+						return
+					}
+				}
 			}
 			_, _ = send(c20Req{Method: "DELETE", Path: "/halt", Query: "name=db&id=" + hid, NodeID: foreign})
 		}
@@ -658,6 +696,47 @@ func runC20(c *core.Case) {
 		if !ok2 && !timedOut {
 			c.Violate("C20/replica-wedged", fmt.Sprintf("after the request storm the replica no longer follows the primary (primary %s replica %s)", mon.PosOf(p.Node, "db"), mon.PosOf(cl.Nodes[1].Node, "db")), map[string]any{"recent_requests": recent, "lock_table": stateDigest(cl.Nodes[1])})
 			return
+		}
+		// epilogue: the database is deleted (position N > 0, no pages); a halt-lock
+		// holder then posts a file in snapshot form (first transaction 1). It does
+		// not extend the position: it must be refused and leave the log alone.
+		if isPrimary && c.Index%2 == 0 && !c.Violated() {
+			w.close()
+			w = nil
+			if err := p.Node.Remove("db"); err != nil {
+				c.Violate("C20/final-drop-failed", err.Error(), map[string]any{"recent_requests": recent})
+				return
+			}
+			hid := fmt.Sprint(3000000 + c.Rng.IntN(1<<20))
+			foreign := "00000000DEADBEEF"
+			if st, err := send(c20Req{Method: "POST", Path: "/halt", Query: "name=db&id=" + hid, NodeID: foreign}); err == nil && st == 200 {
+				pos := p.Store.DB("db").Pos()
+				for kind, body := range map[string][]byte{
+					"snapshot-1-1-after-drop":    forgeSnapshotLTX(img, 0),
+					"snapshot-1-next-after-drop": forgeSnapshotLTX(img, uint64(pos.TXID)),
+				} {
+					before := stateDigest(target)
+					st, err := send(c20Req{Method: "POST", Path: "/tx", Query: "name=db&lockID=" + hid, NodeID: foreign, Body: body, BodyKind: kind, H2: c.Rng.IntN(2) == 0})
+					c.Count("requests", 1)
+					c.Count("holder_hostile_tx", 1)
+					c.Count("holder_snapshot_tx_after_drop", 1)
+					detail := map[string]any{"role": role, "request": "POST /tx from the halt-lock holder, body " + kind, "position": pos.String()}
+					if err != nil {
+						c.Violate("C20/no-http-response/POST /tx", fmt.Sprintf("holder's /tx with a %s body got no response: %v", kind, err), detail)
+						return
+					}
+					if healthViolations(c, target.Node, "holder /tx "+kind, detail) {
+						return
+					}
+					if after := stateDigest(target); after != before || st == 200 {
+						c.Violate("C20/invalid-request-changed-state/POST /tx", fmt.Sprintf("POST /tx from the halt-lock holder with a snapshot-form file (%s) for a deleted database at %s was answered %d and changed databases/positions/logs", kind, pos, st), map[string]any{"digest_before": before, "digest_after": after, "body_kind": kind})
+						return
+					}
+					c.Count("invalid_requests_digest_checked", 1)
+					c.Distinct("primary|POST /tx|holder|" + kind)
+				}
+				_, _ = send(c20Req{Method: "DELETE", Path: "/halt", Query: "name=db&id=" + hid, NodeID: foreign})
+			}
 		}
 	}
 	for _, n := range cl.Nodes {
